@@ -403,6 +403,7 @@ def run(ctx):
     r7 = ctx.rule("C07.R7", "fields of the peer's certificate are formatted within the buffers they are given")
     ctx.trust("hash_description(hash, n, buf) writes 3*n+1 bytes at buf (three characters per byte and the terminator; read off libxcm/tp/tls/log_tls.c)")
     engc = B.Engine(P)
+    engc.ptr_index_stores = True
     nhd = 0
     for f in P.functions:
         if not f.file.startswith("libxcm/"):
@@ -433,7 +434,7 @@ def run(ctx):
         for r in rq:
             lhs, rhs = B.show_lin(r.lhs), B.show_lin(r.rhs)
             pn = [p["name"] for p in f.params]
-            if "cap(" in rhs and (lhs in pn or any(lhs.startswith(x) for x in ("strlen(", "ASN1_STRING_length("))) and not f.static:
+            if "cap(" in rhs and (lhs in pn or lhs.lstrip("-").isdigit() or any(lhs.startswith(x) for x in ("strlen(", "ASN1_STRING_length("))) and not f.static:
                 continue        # the (buffer, capacity) contract of an exported helper, discharged at its callers below
             if not f.static:
                 r7.violation(r.origin["key"], "certificate/log formatting: needs %s <= %s, which nothing establishes" % (lhs, rhs), loc=r.origin["loc"])
